@@ -164,7 +164,9 @@ def path_key(p):
             d[k] = None if v is None else ('ok' if segs and v == segs[-1].end else 'stale')
         else:
             d[k] = v
-    return core.canon([d, [seg_abstract(s) for s in segs]])
+    # which positions hold the very same segment OBJECT (an edit through one position shows through the other)
+    alias = [min(j for j in range(len(segs)) if segs[j] is segs[i]) for i in range(len(segs))]
+    return core.canon([d, [seg_abstract(s) for s in segs], alias])
 
 
 FINE = (1e-15, 9)
@@ -191,7 +193,16 @@ def rebuild_by_value(s):
 
 # ---------------------------------------------------------------- operations
 
-def path_ops(n, tier):
+VARIANTS = ['main', 'close', 'samehash', 'alias']
+
+
+def path_ops(n, tier, variant='main'):
+    """variant 'main': the full mutation / query alphabet.  The others are small alphabets around ONE extra
+    mechanism each (kept out of 'main' so that its fixpoint stays reachable): 'close' - the path closed and
+    opened through its own setters; 'samehash' - values that hash alike (-1, -2); 'alias' - one segment
+    object at two positions."""
+    if variant != 'main':
+        return variant_ops(n, tier, variant)
     P = range(len(pool(tier)))
     L = lmax(tier)
     ops = []
@@ -232,6 +243,26 @@ def path_ops(n, tier):
     return ops
 
 
+def variant_ops(n, tier, variant):
+    L = 3 if (variant == 'alias' and tier != 'quick') else 2
+    ops = []
+    grow = [['append', 0], ['append', 1]] if n < L else []
+    base = ([['set', n - 1, 1], ['set', 0, 0], ['del', 0], ['pop']] if n else []) + grow
+    q = [['q_all'], ['q_length']] if n else []
+    if variant == 'close':
+        return base + ([['start=', 0], ['end=', 0], ['end=start'], ['start=end']] if n else []) + q
+    if variant == 'samehash':
+        return base + ([['start=', 2], ['start=', 3], ['end=', 2], ['end=', 3], ['set_samehash', 0, 2], ['set_samehash', 0, 3]] if n else []) + q
+    if variant == 'alias':
+        al = []
+        if n and n < L:
+            al += [['append_alias', 0], ['insert_alias', 0, n - 1]]
+        if n >= 2:
+            al += [['set_alias', n - 1, 0], ['set_alias', 0, n - 1]]
+        return base + al + ([['start=', 0], ['end=', 0], ['start=', 1], ['reverse']] if n else []) + q
+    raise ValueError(variant)
+
+
 def apply_path_op(p, op, tier):
     """Apply one operation of the alphabet through the Path's own interface.
     Returns the outcome (for queries) or None."""
@@ -258,6 +289,22 @@ def apply_path_op(p, op, tier):
         p.pop()
     elif o == 'reverse':
         p.reverse()
+    elif o == 'append_alias':
+        p.append(p[op[1]])
+    elif o == 'insert_alias':
+        p.insert(op[1], p[op[2]])
+    elif o == 'set_alias':
+        p[op[1]] = p[op[2]]
+    elif o == 'end=start':
+        p.end = p.start
+    elif o == 'start=end':
+        p.start = p.end
+    elif o == 'start=' and op[1] >= 2:
+        p.start = complex(-1.0, 0.0) if op[1] == 2 else complex(-2.0, 0.0)
+    elif o == 'end=' and op[1] >= 2:
+        p.end = complex(3.0, -1.0) if op[1] == 2 else complex(3.0, -2.0)
+    elif o == 'set_samehash':
+        p[op[1]] = Line(complex(-1.0 if op[2] == 2 else -2.0, 0.5), complex(1.0, 0.25))
     elif o == 'start=':
         p.start = ZS if op[1] == 0 else complex(*PL[0][1])
     elif o == 'end=':
@@ -301,6 +348,11 @@ QUERY_FNS = [
     ('radialrange', lambda p: p.radialrange(complex(2 * S, 11 * S)) if not any(isinstance(x, Arc) for x in p) else None),
     ('unit_tangent', lambda p: p.unit_tangent(0.3)),
     ('continuous_subpaths', lambda p: [len(x) for x in p.continuous_subpaths()]),
+    ('isclosed', lambda p: p.isclosed() if p.iscontinuous() else None),
+    ('joints', lambda p: [(a.end, b.start) for a, b in p.joints()]),
+    ('intersect_line', lambda p: sorted((round(float(T1), 9), round(float(T2), 9)) for (T1, _, _), (T2, _, _) in
+                                        p.intersect(Path(Line(complex(-3 * S, 2.1 * S), complex(14 * S, 1.3 * S))))) if not any(isinstance(x, Arc) for x in p) else None),
+    ('scaled.d', lambda p: p.scaled(3.0).d() if not any(isinstance(x, Arc) for x in p) else None),
 ]
 
 
@@ -363,7 +415,7 @@ def mutated_features(hist):
     return last_mut, sorted(set(qs))
 
 
-def inspect_path(tier, cfg):
+def inspect_path(tier, cfg, variant='main'):
     def inspect(p, hist, acc):
         k0 = path_key(p)
         p1 = copy.deepcopy(p)
@@ -374,7 +426,7 @@ def inspect_path(tier, cfg):
         f_val = Path(*[rebuild_by_value(s) for s in p])
         populated = any(v is not None for kk, v in vars(p).items() if kk in ('_length', '_lengths'))
         acc.case(lambda: {'config': cfg_name(cfg), 'history': hist, 'segments': path2j(p)},
-                 cls='path/%s/len%d/%s' % (cfg_name(cfg), len(p), 'cached' if populated else 'nocache'),
+                 cls='path/%s/len%d/%s' % (cfg_name(cfg), len(p), 'cached' if populated else 'nocache') if variant == 'main' else 'path_%s/%s' % (variant, cfg_name(cfg)),
                  nontrivial=bool(hist))
         acc.traces += 1
         # equality must not depend on what either side has cached: compare the untouched copy with a
@@ -385,7 +437,7 @@ def inspect_path(tier, cfg):
         e0 = outcome(lambda: (p0 == f_len, f_len == p0, p0 != f_len))
         if e0 != ('ok', (True, True, False)):
             acc.violation('path_not_equal_to_fresh', {'config': cfg_name(cfg), 'fresh_has_cached_length': True},
-                          {'level': 'path', 'tier': tier, 'config': cfg, 'history': hist},
+                          {'level': 'path', 'tier': tier, 'ops': variant, 'config': cfg, 'history': hist},
                           observed=e0, expected=('ok', (True, True, False)))
         o1 = observe(p1)
         for oname, fresh in (('fresh_same_segments', f_same), ('fresh_by_value', f_val)):
@@ -396,7 +448,7 @@ def inspect_path(tier, cfg):
                     acc.violation('path_query_differs_from_fresh',
                                   {'query': qn.split('(')[0], 'oracle': oname, 'config': cfg_name(cfg),
                                    'last_mutation': last_mut, 'queries_before_it': qs},
-                                  {'level': 'path', 'tier': tier, 'config': cfg, 'history': hist},
+                                  {'level': 'path', 'tier': tier, 'ops': variant, 'config': cfg, 'history': hist},
                                   observed=a, expected=b,
                                   detail='query %s after history %s' % (qn, hist))
                     break
@@ -404,20 +456,20 @@ def inspect_path(tier, cfg):
         eq = outcome(lambda: (p1 == f_val, p1 != f_val))
         if eq != ('ok', (True, False)):
             acc.violation('path_not_equal_to_fresh', {'config': cfg_name(cfg)},
-                          {'level': 'path', 'tier': tier, 'config': cfg, 'history': hist},
+                          {'level': 'path', 'tier': tier, 'ops': variant, 'config': cfg, 'history': hist},
                           observed=eq, expected=('ok', (True, False)))
         else:
             hh = outcome(lambda: hash(p1) == hash(f_val))
             if hh != ('ok', True):
                 acc.violation('eq_implies_hash', {'kind': 'Path', 'how': 'mutation history', 'config': cfg_name(cfg)},
-                              {'level': 'path', 'tier': tier, 'config': cfg, 'history': hist},
+                              {'level': 'path', 'tier': tier, 'ops': variant, 'config': cfg, 'history': hist},
                               observed=hh, expected=('ok', True))
     return inspect
 
 
-def successors_path(tier, cfg):
+def successors_path(tier, cfg, variant='main'):
     def succ(p, hist, acc):
-        for op in path_ops(len(p), tier):
+        for op in path_ops(len(p), tier, variant):
             q = copy.deepcopy(p)
             if op[0].startswith('q_'):
                 # transition check: the query's own answer vs a fresh path by value
@@ -436,14 +488,14 @@ def successors_path(tier, cfg):
                     acc.violation('path_query_differs_from_fresh',
                                   {'query': op[0], 'oracle': 'fresh_by_value', 'config': cfg_name(cfg),
                                    'last_mutation': last_mut, 'queries_before_it': qs},
-                                  {'level': 'path', 'tier': tier, 'config': cfg, 'history': hist + [op],
+                                  {'level': 'path', 'tier': tier, 'ops': variant, 'config': cfg, 'history': hist + [op],
                                    'transition': True},
                                   observed=a, expected=b, detail='transition query %s' % op)
             else:
                 r = outcome(lambda: apply_path_op(q, op, tier))
                 if r[0] == 'exc':
                     acc.violation('mutation_raises', {'op': op[0], 'exc': r[1]},
-                                  {'level': 'path', 'tier': tier, 'config': cfg, 'history': hist + [op]},
+                                  {'level': 'path', 'tier': tier, 'ops': variant, 'config': cfg, 'history': hist + [op]},
                                   observed=r, expected='no exception')
                     continue
             yield op, q
@@ -690,11 +742,14 @@ def shards(tier, seed):
     out = []
     for cfg in (True, False):
         out.append({'what': 'path', 'config': cfg})
+        out += [{'what': 'path', 'config': cfg, 'ops': v} for v in VARIANTS[1:]]
         if tier == 'thorough' and cfg:
             # LMAX 3 over the 3-segment pool, scipy configuration only (the fallback costs ~5x per state)
             out.append({'what': 'path', 'config': cfg, 'variant': 'deep'})
         for spec in SEG_SPECS:
             out.append({'what': 'segment', 'config': cfg, 'spec': spec})
+    out.append({'what': 'long', 'config': True})
+    out.append({'what': 'long', 'config': False})
     out.append({'what': 'hash_eq'})
     out.append({'what': 'hash_collision', 'config': True})
     out.append({'what': 'hash_collision', 'config': False})
@@ -716,14 +771,17 @@ def run_shard(desc, tier, seed):
     try:
         if desc['what'] == 'hash_collision':
             run_hash_collisions(cfg, acc)
+        elif desc['what'] == 'long':
+            run_long_parallel(cfg, acc, tier)
         elif desc['what'] == 'path':
             vt = desc.get('variant', tier)
             # horizon: the clean tree closes at <= 30k (quick) / 500k (thorough) states in total; a change that
             # adds hidden per-object state (kept by value in the key) must not turn the search into an endless one
-            fix = core.parallel_bfs([([], Path())], successors_path(vt, cfg), path_key,
-                                    inspect_path(vt, cfg), acc, jobs=16,
-                                    max_states=100000 if tier == 'quick' else 3000000)
-            acc.extra['fixpoint'] = {'path/%s/%s' % (vt, cfg_name(cfg)): bool(fix)}
+            ov = desc.get('ops', 'main')
+            fix = core.parallel_bfs([([], Path())], successors_path(vt, cfg, ov), path_key,
+                                    inspect_path(vt, cfg, ov), acc, jobs=16,
+                                    max_states=60000 if tier == "quick" else 3000000)
+            acc.extra['fixpoint'] = {'path/%s/%s/%s' % (vt, ov, cfg_name(cfg)): bool(fix)}
         else:
             spec = desc['spec']
             core.parallel_bfs([([], [j2seg(spec)])], successors_seg(cfg, spec), seg_key,
@@ -735,8 +793,125 @@ def run_shard(desc, tier, seed):
     return acc
 
 
+# ---------------------------------------------------------------- long paths (size thresholds)
+
+LONG_SIZES = [31, 32, 33, 34, 63, 64, 65, 127, 128, 129]
+LONG_SIZES_QUICK = [31, 32, 33, 34, 64, 65]
+
+
+def long_segments(n):
+    segs = []
+    pen = 0j
+    for k in range(n):
+        e = pen + complex((1 + k % 3) * S, ((-1) ** k) * (1 + k % 2) * S)
+        segs.append(Line(pen, e) if k % 4 else CubicBezier(pen, pen + S * (1 + 1j), e - S * (1 - 1j), e))
+        pen = e
+    return segs
+
+
+def long_ops(n):
+    """mutations that take a path of n segments across (or near) every power of two, both ways"""
+    ops = [['del', 0], ['del', -1], ['pop'], ['delslice', 1, 3], ['delslice', 0, n - 31], ['delslice', 5, n - 10], ['delslice', 0, n - 1],
+           ['slice_to_one', 2, n - 2], ['append_new'], ['extend_new', 3], ['set_new', n // 2], ['start=new'], ['end=new'], ['reverse'],
+           ['insert_new', 0], ['insert_new', n // 2]]
+    return [o for o in ops if not (o[0] == 'delslice' and not 0 <= o[1] < o[2] <= n)]
+
+
+def apply_long_op(p, op):
+    o = op[0]
+    new = lambda: Line(complex(40 * S, 3 * S), complex(41 * S, 7 * S))
+    if o == 'del':
+        del p[op[1]]
+    elif o == 'pop':
+        p.pop()
+    elif o == 'delslice':
+        del p[op[1]:op[2]]
+    elif o == 'slice_to_one':
+        p[op[1]:op[2]] = [new()]
+    elif o == 'append_new':
+        p.append(new())
+    elif o == 'extend_new':
+        p.extend([new() for _ in range(op[1])])
+    elif o == 'set_new':
+        p[op[1]] = new()
+    elif o == 'insert_new':
+        p.insert(op[1], new())
+    elif o == 'start=new':
+        p.start = complex(-5 * S, 2 * S)
+    elif o == 'end=new':
+        p.end = complex(-5 * S, 2 * S)
+    elif o == 'reverse':
+        p.reverse()
+    else:
+        raise ValueError(op)
+
+
+LONG_QUERIES = [('len', lambda p: len(p)), ('length', lambda p: p.length()), ('start', lambda p: p.start), ('end', lambda p: p.end)] + \
+    [('point(%r)' % T, (lambda T: lambda p: p.point(T))(T)) for T in (0.0, 0.013, 0.3, 0.5, 0.77, 0.999, 1.0)] + \
+    [('T2t(%r)' % T, (lambda T: lambda p: p.T2t(T))(T)) for T in (0.013, 0.3, 0.5, 0.77, 0.999)] + \
+    [('bbox', lambda p: p.bbox()), ('iscontinuous', lambda p: p.iscontinuous()), ('length(0.2,0.7)', lambda p: p.length(0.2, 0.7)),
+     ('radialrange', lambda p: p.radialrange(complex(2 * S, 11 * S)))]
+
+
+def _long_worker(args):
+    cfg, n = args
+    a = core.Acc()
+    old = sp._quad_available
+    sp._quad_available = bool(cfg)
+    try:
+        run_long_histories(cfg, a, sizes=[n])
+    finally:
+        sp._quad_available = old
+    return a
+
+
+def run_long_parallel(cfg, acc, tier):
+    import multiprocessing as mp
+    sizes = LONG_SIZES_QUICK if tier == 'quick' else LONG_SIZES
+    with mp.get_context('fork').Pool(min(16, len(sizes))) as pool_:
+        for a in pool_.map(_long_worker, [(cfg, n) for n in sizes], chunksize=1):
+            acc.merge(a)
+
+
+def run_long_histories(cfg, acc, sizes=None):
+    """histories  [queries] mutation [queries] mutation  on paths of 31..129 segments: whatever a Path
+    precomputes for long paths must follow every mutation, also when the path shrinks below the size at
+    which it was built or grows above it"""
+    for n in (sizes or LONG_SIZES):
+        ops = long_ops(n)
+        for pre in (False, True):
+            for op1 in ops:
+                for op2 in [None] + ([['append_new'], ['delslice', 0, 2], ['pop']] if pre else []):
+                    hist = (['q'] if pre else []) + [op1] + ((['q'] if pre else []) + [op2] if op2 else [])
+                    p = Path(*long_segments(n))
+                    try:
+                        for h in hist:
+                            if h == 'q':
+                                for _, f in LONG_QUERIES:
+                                    outcome(lambda: f(p))
+                            else:
+                                apply_long_op(p, h)
+                    except Exception as e:
+                        acc.violation('mutation_raises', {'op': op1[0], 'exc': type(e).__name__, 'long': True},
+                                      {'level': 'long', 'config': cfg, 'n': n, 'history': hist}, observed=repr(e))
+                        continue
+                    fresh = Path(*[rebuild_by_value(s_) for s_ in p])
+                    case = {'level': 'long', 'config': cfg, 'n': n, 'history': hist}
+                    acc.case(case, cls='long/%s/%s' % (cfg_name(cfg), 'ge32' if n >= 32 else 'lt32'))
+                    acc.traces += 1
+                    for qn, f in LONG_QUERIES:
+                        a, b = outcome(lambda: f(p)), outcome(lambda: f(fresh))
+                        if not same_outcome(a, b, tol_for(qn)):
+                            acc.violation('path_query_differs_from_fresh',
+                                          {'query': qn.split('(')[0], 'oracle': 'fresh_by_value', 'config': cfg_name(cfg), 'long': True,
+                                           'last_mutation': (op2 or op1)[0], 'queried_before': pre},
+                                          case, observed=a, expected=b, detail='query %s after history %s on a %d-segment path' % (qn, hist, n))
+                            break
+
+
 def expected_classes(tier):
-    out = ['hash_eq/Path/equal', 'hash_eq/segment/equal']
+    out = ['hash_eq/Path/equal', 'hash_eq/segment/equal', 'long/scipy/ge32', 'long/fallback/lt32'] + \
+        ['path_%s/%s' % (v, c) for v in VARIANTS[1:] for c in ('scipy', 'fallback')]
     for c in ('scipy', 'fallback'):
         for n in range(0, lmax(tier) + 1):
             out.append('path/%s/len%d/nocache' % (c, n))
@@ -757,6 +932,7 @@ def space(tier, seed):
         'segment_level': {'specs': SEG_SPECS, 'depth': seg_depth(tier), 'queries': SEG_QUERIES,
                           'ops': 'assign each control attribute (alt/original), 5 length queries, reversed() copy then ops on either object'},
         'hash_eq': {'parsed_variants': len(hash_eq_cases())},
+        'long_paths': {'sizes': LONG_SIZES_QUICK if tier == 'quick' else LONG_SIZES, 'mutations': [o[0] for o in long_ops(40)], 'histories': '[queries] mutation [queries] [mutation]', 'queries': [q for q, _ in LONG_QUERIES]},
         'configurations': ['scipy', 'fallback'],
     }
 
@@ -775,6 +951,12 @@ def replay(case):
         finally:
             sp._quad_available = old
         return acc.vlist
+    if case['level'] == 'long':
+        try:
+            run_long_histories(cfg, acc)
+        finally:
+            sp._quad_available = old
+        return [v for v in acc.vlist if v['case'].get('n') == case['n'] and v['case'].get('history') == case['history']]
     try:
         hist = case['history']
         if case['level'] == 'path':
@@ -784,12 +966,12 @@ def replay(case):
                 apply_path_op(p, op, tier)
             if case.get('transition'):
                 # re-run the successor generation of the parent state for that op only
-                for op, q in successors_path(tier, cfg)(p, hist[:-1], acc):
+                for op, q in successors_path(tier, cfg, case.get('ops', 'main'))(p, hist[:-1], acc):
                     pass
                 acc.vlist = [v for v in acc.vlist if v['case']['history'] == hist]
             else:
                 apply_path_op(p, hist[-1], tier) if hist else None
-                inspect_path(tier, cfg)(p, hist, acc)
+                inspect_path(tier, cfg, case.get('ops', 'main'))(p, hist, acc)
         else:
             spec = [s for s in SEG_SPECS if s[0] == case['kind']][0]
             state = [j2seg(spec)]
